@@ -202,15 +202,42 @@ Proof.
   unfold email_tlds. destruct (Nat.ltb n EMAIL_LONG); [rewrite cc_len| rewrite all_len]; discriminate.
 Qed.
 
+(** *** the obligations on the two MEASURED thresholds (Gen/TokenConsts.v)
+    [EMAIL_MIN] is the length below which no TLD is drawn; from [EMAIL_LONG] on every TLD of the code can
+    be drawn, below it only the country TLDs.  For the e-mail shape "a@b" (3 bytes) has to fit in front of
+    every TLD that can be drawn; for the absence of a negative slice bound the TLD itself has to fit. *)
+Lemma email_min_is_shortest_email : EMAIL_MIN = 6%nat.   (* len "a@b" + the 3 bytes of a country TLD *)
+Proof. reflexivity. Qed.
+Lemma email_long_leaves_room :
+  forallb (fun tld => (length tld + 3 <=? EMAIL_LONG)%nat) (TOK_GENERIC_TLDS ++ TOK_CC_TLDS) = true.
+Proof. vm_compute. reflexivity. Qed.
+Lemma email_long_tld_fits :
+  forallb (fun tld => (length tld <=? EMAIL_LONG)%nat) (TOK_GENERIC_TLDS ++ TOK_CC_TLDS) = true.
+Proof. vm_compute. reflexivity. Qed.
+
+(** every TLD that can be chosen for length [n >= 6] is one of the code's and fits *)
+Lemma email_tlds_fit_weak n tld :
+  (6 <= n)%nat -> In tld (email_tlds n) ->
+  In tld (TOK_GENERIC_TLDS ++ TOK_CC_TLDS) /\ (length tld <= n)%nat.
+Proof.
+  intros Hn. unfold email_tlds. destruct (Nat.ltb n EMAIL_LONG) eqn:L; intros Hin.
+  - pose proof (cc_tld_len_in _ Hin) as H3.
+    split; [apply in_or_app; right; exact Hin| lia].
+  - apply Nat.ltb_ge in L. pose proof email_long_tld_fits as F. rewrite forallb_forall in F.
+    specialize (F tld Hin). apply Nat.leb_le in F.
+    split; [exact Hin| lia].
+Qed.
+
 (** every TLD that can be chosen for length [n >= 6] leaves at least 3 characters *)
 Lemma email_tlds_fit n tld :
   (6 <= n)%nat -> In tld (email_tlds n) ->
   In tld (TOK_GENERIC_TLDS ++ TOK_CC_TLDS) /\ (length tld + 3 <= n)%nat.
 Proof.
-  intros Hn. unfold email_tlds, EMAIL_LONG. destruct (Nat.ltb n 8) eqn:L; intros Hin.
-  - apply Nat.ltb_lt in L. pose proof (cc_tld_len_in _ Hin) as H3.
+  intros Hn. unfold email_tlds. destruct (Nat.ltb n EMAIL_LONG) eqn:L; intros Hin.
+  - pose proof (cc_tld_len_in _ Hin) as H3.
     split; [apply in_or_app; right; exact Hin| lia].
-  - apply Nat.ltb_ge in L. pose proof (all_tld_len_in _ Hin) as H5.
+  - apply Nat.ltb_ge in L. pose proof email_long_leaves_room as F. rewrite forallb_forall in F.
+    specialize (F tld Hin). apply Nat.leb_le in F.
     split; [exact Hin| lia].
 Qed.
 
@@ -222,7 +249,7 @@ Proof.
     [|discriminate|exfalso; apply D; reflexivity].
   apply int31n_lt in I; [|apply email_tlds_nonempty].
   assert (In (nth (N.to_nat i) (email_tlds n) []) (email_tlds n)) as Hin by (apply nth_In; lia).
-  apply (email_tlds_fit n _ Hn) in Hin as [_ Hfit].
+  apply (email_tlds_fit_weak n _ Hn) in Hin as [_ Hfit].
   cbv zeta.
   destruct (Nat.ltb n (length (nth (N.to_nat i) (email_tlds n) []))) eqn:E;
     [apply Nat.ltb_lt in E; lia|].
@@ -233,7 +260,7 @@ Qed.
 
 Lemma random_email_no_panic : forall n t, random_email n t <> Panic.
 Proof.
-  intros n t. rewrite random_email_eq. unfold EMAIL_MIN.
+  intros n t. rewrite random_email_eq, email_min_is_shortest_email.
   destruct (Nat.ltb n 6) eqn:E.
   - apply random_string_no_panic.
   - apply Nat.ltb_ge in E. apply email_body_no_panic. exact E.
@@ -280,7 +307,7 @@ Lemma random_email_shape : forall n t s t',
       s = loc ++ [x40] ++ dom ++ tld /\ In tld (TOK_GENERIC_TLDS ++ TOK_CC_TLDS) /\
       loc <> [] /\ dom <> [] /\ Forall in_charset loc /\ Forall in_charset dom)%nat.
 Proof.
-  intros n t s t'. rewrite random_email_eq. unfold EMAIL_MIN.
+  intros n t s t'. rewrite random_email_eq, email_min_is_shortest_email.
   destruct (Nat.ltb n 6) eqn:E; intros H.
   - apply Nat.ltb_lt in E. destruct (random_string_shape _ _ _ _ H) as [L F].
     split; [exact L|]. split; [intros _; exact F| intros Hge; lia].
@@ -315,3 +342,137 @@ Qed.
 Lemma gen_value_str_shape : forall v t tok t',
   gen_value TStr v t = Ok (tok, t') -> length tok = length v /\ Forall in_charset tok.
 Proof. intros v t tok t' H. cbn [gen_value] in H. exact (random_string_shape _ _ _ _ H). Qed.
+
+(** ** 8. e-mail tokens, positional form (s62): exactly one '@', not first; non-empty domain label in
+    front of the TLD; the TLD is the part from the last '.' on *)
+Lemma charset_no_at_dot : existsb (fun b => byte_eqb b x40 || byte_eqb b x2e) TOK_CHARSET = false.
+Proof. vm_compute. reflexivity. Qed.
+Lemma tlds_dot_then_letters :
+  forallb (fun tld => match tld with
+                      | d :: rest => byte_eqb d x2e && negb (existsb (fun b => byte_eqb b x40 || byte_eqb b x2e) rest)
+                      | [] => false end) (TOK_GENERIC_TLDS ++ TOK_CC_TLDS) = true.
+Proof. vm_compute. reflexivity. Qed.
+
+Lemma in_charset_not_at_dot b : in_charset b -> b <> x40 /\ b <> x2e.
+Proof.
+  intros Hin. pose proof charset_no_at_dot as F.
+  destruct (existsb (fun b => byte_eqb b x40 || byte_eqb b x2e) TOK_CHARSET) eqn:E; [discriminate|].
+  assert (byte_eqb b x40 || byte_eqb b x2e = false) as Hb.
+  { destruct (byte_eqb b x40 || byte_eqb b x2e) eqn:B; [|reflexivity].
+    assert (existsb (fun b => byte_eqb b x40 || byte_eqb b x2e) TOK_CHARSET = true) as X
+      by (apply existsb_exists; exists b; split; [exact Hin| exact B]).
+    rewrite X in E. discriminate. }
+  apply orb_false_iff in Hb as [B1 B2].
+  split; intros ->; rewrite byte_eqb_refl in *; discriminate.
+Qed.
+
+Lemma tld_dot_then_letters tld :
+  In tld (TOK_GENERIC_TLDS ++ TOK_CC_TLDS) ->
+  exists rest, tld = x2e :: rest /\ ~ In x40 rest /\ ~ In x2e rest.
+Proof.
+  intros Hin. pose proof tlds_dot_then_letters as F. rewrite forallb_forall in F. specialize (F tld Hin).
+  destruct tld as [|d rest]; [discriminate|].
+  apply andb_true_iff in F as [F1 F2]. apply byte_eqb_eq in F1. subst d.
+  exists rest. split; [reflexivity|].
+  apply negb_true_iff in F2.
+  assert (forall b, In b rest -> byte_eqb b x40 || byte_eqb b x2e = false) as N.
+  { intros b Hb. destruct (byte_eqb b x40 || byte_eqb b x2e) eqn:B; [|reflexivity].
+    assert (existsb (fun b => byte_eqb b x40 || byte_eqb b x2e) rest = true) as X
+      by (apply existsb_exists; exists b; split; [exact Hb| exact B]).
+    rewrite X in F2. discriminate. }
+  split; intros Hb; specialize (N _ Hb); rewrite byte_eqb_refl in N; cbn in N; discriminate.
+Qed.
+
+(** the token read position by position: [a] is the index of the '@', [d] the index of the last '.' *)
+Definition email_wellformed (n : nat) (tok : bytes) : Prop :=
+  exists a tld rest,
+    In tld (TOK_GENERIC_TLDS ++ TOK_CC_TLDS) /\ tld = x2e :: rest /\
+    length tok = n /\
+    let d := (n - length tld)%nat in
+    (0 < a)%nat /\                      (* non-empty local part: the '@' is not the first byte *)
+    (a + 1 < d)%nat /\                  (* non-empty domain label between the '@' and the '.' of the TLD *)
+    (d < n)%nat /\
+    (forall j, nth_error tok j = Some x40 <-> j = a) /\                    (* exactly one '@' *)
+    (forall j, nth_error tok j = Some x2e -> (j <= d)%nat) /\ nth_error tok d = Some x2e /\  (* d is the last '.' *)
+    (forall j, (j < d)%nat -> j <> a -> exists b, nth_error tok j = Some b /\ in_charset b) /\
+    skipn d tok = tld.
+
+Lemma nth_error_app_mid {A} (l1 : list A) x l2 : nth_error (l1 ++ x :: l2) (length l1) = Some x.
+Proof. rewrite nth_error_app2 by lia. rewrite Nat.sub_diag. reflexivity. Qed.
+
+Lemma email_decomposition_wellformed (loc dom tld : bytes) :
+  In tld (TOK_GENERIC_TLDS ++ TOK_CC_TLDS) -> loc <> [] -> dom <> [] ->
+  Forall in_charset loc -> Forall in_charset dom ->
+  email_wellformed (length (loc ++ [x40] ++ dom ++ tld)) (loc ++ [x40] ++ dom ++ tld).
+Proof.
+  intros Hin Hl Hd Fl Fd.
+  destruct (tld_dot_then_letters _ Hin) as [rest [Ht [Na Nd]]].
+  exists (length loc), tld, rest.
+  assert (0 < length loc)%nat as Ll by (destruct loc; [congruence| cbn [length]; lia]).
+  assert (0 < length dom)%nat as Ld by (destruct dom; [congruence| cbn [length]; lia]).
+  assert (length (loc ++ [x40] ++ dom ++ tld) - length tld = length loc + 1 + length dom)%nat as D
+    by (rewrite !app_length; cbn [length]; lia).
+  assert (0 < length tld)%nat as Lt by (rewrite Ht; cbn [length]; lia).
+  (* every position of the token *)
+  assert (forall j b, nth_error (loc ++ [x40] ++ dom ++ tld) j = Some b ->
+            (j < length loc /\ in_charset b)%nat \/ (j = length loc /\ b = x40) \/
+            (length loc < j < length loc + 1 + length dom /\ in_charset b)%nat \/
+            (j = length loc + 1 + length dom /\ b = x2e)%nat \/
+            (length loc + 1 + length dom < j /\ In b rest)%nat) as Pos.
+  { intros j b Hj.
+    destruct (Nat.lt_ge_cases j (length loc)) as [C1|C1].
+    { left. split; [exact C1|]. rewrite nth_error_app1 in Hj by exact C1.
+      rewrite Forall_forall in Fl. apply Fl. eapply nth_error_In. exact Hj. }
+    rewrite nth_error_app2 in Hj by exact C1.
+    destruct (j - length loc)%nat as [|k] eqn:K.
+    { right. left. cbn in Hj. split; [lia| congruence]. }
+    cbn [app nth_error] in Hj.
+    destruct (Nat.lt_ge_cases k (length dom)) as [C2|C2].
+    { right. right. left. split; [lia|]. rewrite nth_error_app1 in Hj by exact C2.
+      rewrite Forall_forall in Fd. apply Fd. eapply nth_error_In. exact Hj. }
+    rewrite nth_error_app2 in Hj by exact C2. rewrite Ht in Hj.
+    destruct (k - length dom)%nat as [|m] eqn:M.
+    { right. right. right. left. cbn in Hj. split; [lia| congruence]. }
+    right. right. right. right. cbn [nth_error] in Hj. split; [lia| eapply nth_error_In; exact Hj]. }
+  split; [exact Hin|]. split; [exact Ht|]. split; [reflexivity|].
+  cbv zeta. rewrite D.
+  split; [exact Ll|]. split; [lia|]. split; [rewrite !app_length; cbn [length]; lia|].
+  split.
+  { intros j. split.
+    - intros Hj. destruct (Pos _ _ Hj) as [[_ C]|[[C _]|[[_ C]|[[_ C]|[_ C]]]]].
+      + destruct (in_charset_not_at_dot _ C) as [X _]. congruence.
+      + exact C.
+      + destruct (in_charset_not_at_dot _ C) as [X _]. congruence.
+      + discriminate C.
+      + contradiction.
+    - intros ->. apply nth_error_app_mid. }
+  split.
+  { intros j Hj. destruct (Pos _ _ Hj) as [[C _]|[[C _]|[[C _]|[[C _]|[_ C]]]]]; try lia. contradiction. }
+  split.
+  { replace (loc ++ [x40] ++ dom ++ tld) with ((loc ++ [x40] ++ dom) ++ x2e :: rest)
+      by (rewrite Ht, <- !app_assoc; reflexivity).
+    replace (length loc + 1 + length dom)%nat with (length (loc ++ [x40] ++ dom))
+      by (rewrite !app_length; cbn [length]; lia).
+    apply nth_error_app_mid. }
+  split.
+  { intros j Hj Hne.
+    destruct (nth_error (loc ++ [x40] ++ dom ++ tld) j) as [b|] eqn:E.
+    - exists b. split; [reflexivity|].
+      destruct (Pos _ _ E) as [[_ C]|[[C _]|[[_ C]|[[C _]|[C _]]]]]; try exact C; lia.
+    - apply nth_error_None in E. rewrite !app_length in E. cbn [length] in E. lia. }
+  replace (loc ++ [x40] ++ dom ++ tld) with ((loc ++ [x40] ++ dom) ++ tld) by (rewrite <- !app_assoc; reflexivity).
+  replace (length loc + 1 + length dom)%nat with (length (loc ++ [x40] ++ dom))
+    by (rewrite !app_length; cbn [length]; lia).
+  rewrite skipn_app, skipn_all, Nat.sub_diag. reflexivity.
+Qed.
+
+(** for EVERY length from "a@b.cc" on and EVERY tape the generated e-mail token is well-formed *)
+Lemma random_email_wellformed : forall n t tok t',
+  (6 <= n)%nat -> random_email n t = Ok (tok, t') -> email_wellformed n tok.
+Proof.
+  intros n t tok t' Hn H.
+  destruct (random_email_shape _ _ _ _ H) as [L [_ S]].
+  destruct (S Hn) as [loc [dom [tld [E [Hin [Hl [Hd [Fl Fd]]]]]]]].
+  pose proof (email_decomposition_wellformed loc dom tld Hin Hl Hd Fl Fd) as W.
+  rewrite <- E in W. rewrite L in W. exact W.
+Qed.
